@@ -169,7 +169,7 @@ def _table_to_csv(table: Table, stream: TextIO, sep: str, na_rep: str) -> None:
         formatted_col_vals = (
             (
                 fs.format(x) if fs else str(x)
-                for x in _represent_col_elements(col.values, col.unit, na_rep)
+                for x in _represent_col_elements(table.df[col.name], col.unit, na_rep)
             )
             for col, fs in zip(table, format_strings)
         )
